@@ -280,6 +280,20 @@ def check_product(case, rec):
             got_int = float(topo.integrate(f.nutils(geom) * function.J(x, **sp) * function.J(t[None], **spt), degree=12))
             if abs(got_int - want_int) > 1e-10 * (1 + abs(want_int)):
                 raise Violation('integral', f'{what}: integral of f J(x) J(t) = {got_int!r}, independent quadrature {want_int!r}', where='product:integral')
+        # curvature of a curved boundary of X in the X spaces only, for a geometry that the other factor scales: 1/(R (1 + s))
+        if dx == 2 and not case['simplex']:
+            rr, th = 1 + xi[0], xi[1]
+            xa = numpy.stack([rr * numpy.cos(th), rr * numpy.sin(th)])
+            gsc = (1 + ti[0]) * xa
+            try:
+                k0 = numpy.asarray(X.boundary['right'].sample('gauss', 2).eval(function.curvature(xa)))
+                k1, s1 = (X.boundary['right'] * T).sample('gauss', 2).eval([function.curvature(gsc, spaces=['X']), ti[0]])
+            except Exception as e:
+                raise Violation('eval-raised', f'{what}: curvature of the arc r=2 (plain, and scaled by 1+s with spaces=[X]): {type(e).__name__}: {str(e)[:300]}', where='product-curvature:' + type(e).__name__)
+            k1 = numpy.asarray(k1); s1 = numpy.asarray(s1)
+            if abs(abs(k0) - .5).max() > 1e-9 or abs(abs(k1) - .5 / (1 + s1)).max() > 1e-9 or (numpy.sign(k1) != numpy.sign(k0[0])).any():
+                raise Violation('product-operator', f'{what}: curvature of the arc r=2: plain {k0[:3].tolist()} (expected magnitude 0.5), scaled by (1+s) in the X spaces {k1[:3].tolist()} (expected 0.5/(1+s) = {(.5 / (1 + s1))[:3].tolist()})', where='product:curvature')
+            rec.label('product:curvature-in-subspace')
         # boundary of X times T: normal of x, divergence theorem in x for every t
         if dx >= 1:
             bt = X.boundary * T
